@@ -54,10 +54,12 @@ def build(X):
     en.drop_attrs()
     f = X.fn(PARSER_MOD, "parse_lr_to_pr")
     f.rewrite_re("R1", r"//[^\n]*\n", "\n", count=None, why="comments")
-    m = re.search(r"let semantic_tokens: Vec<_> = lr\s*\.into_iter\(\)\s*\.filter\(\|token\| \{(.*?)\}\)\s*\.collect\(\);", f.text, re.S)
+    m = re.search(r"let semantic_tokens: Vec<_> = lr\s*\.into_iter\(\)\s*\.filter\(\|token\|\s*(.*?)\)\s*\.collect\(\);", f.text, re.S)
     if not m:
         raise ExtractionError("parse_lr_to_pr: `let semantic_tokens: Vec<_> = lr.into_iter().filter(|token| { .. }).collect();` not found")
     pred = m.group(1).strip()
+    if pred.startswith("{") and pred.endswith("}"):
+        pred = pred[1:-1].strip()
     f.name = "semantic_tokens_of"
     f.rewrites.append({"rule": "slice", "what": "the statement `let semantic_tokens: Vec<_> = lr.into_iter().filter(..).collect();` of parse_lr_to_pr, wrapped as fn semantic_tokens_of(lr)"})
     f.rewrites.append({"rule": "R14", "what": "`lr.into_iter().filter(|token| P).collect()` desugared to the loop it is (push when P holds), with the invariant TF1i; P is the real closure body"})
